@@ -606,10 +606,26 @@ func (s *socket) Close(discard bool) {
 
 	if length := s.writeBuffer.Len(); length > 0 {
 		socket_log.Debug("there are %d remaining packets in the buffer, waiting for the 'drain' event", length)
-		s.Once("drain", func(...any) {
-			socket_log.Debug("all packets have been sent, closing the transport")
-			s.closeTransport(discard)
-		})
+		var once sync.Once
+		closeNow := func(...any) {
+			once.Do(func() {
+				socket_log.Debug("all packets have been sent, closing the transport")
+				s.closeTransport(discard)
+			})
+		}
+		s.Once("drain", closeNow)
+		// a flush on another goroutine may have emptied the buffer, and emitted its 'drain', between
+		// the test above and the registration: nobody would ever close the transport. flush holds
+		// flushMu until its 'drain' is out, so once the lock has been seen free an empty buffer means
+		// the drain is over. (On a goroutine of its own: Close may be called from a flush listener.)
+		go func() {
+			s.flushMu.Lock()
+			empty := s.writeBuffer.Len() == 0
+			s.flushMu.Unlock()
+			if empty {
+				closeNow()
+			}
+		}()
 		return
 	}
 
